@@ -1,4 +1,6 @@
 import SekaiProofs.Lemmas.Auth
+import Sekai.Gen.App
+import Sekai.Model.App
 /-! # C02 — Transactions are authenticated by every signer and cannot be replayed
 
 Theorems about `Sekai.Auth.anteAuth` (lean/Sekai/Model/Auth.lean), the model of the authentication part of the
@@ -750,5 +752,17 @@ theorem pubkey_never_replaced {env : Env} {A A' : Accounts} {tx : Tx} (h : anteA
     ∃ acc', A' a = some acc' ∧ acc'.pk = some k := by
   obtain ⟨acc', h1, _, _, h2⟩ := (accepted_effect h a).2 acc hA
   exact ⟨acc', h1, h2 k hk⟩
+
+/-! ### Application wiring (table `Gen.App`) -/
+
+/-- The ante chain the `Auth` model stands for: the public key is installed before signatures are verified, the
+sequence number is incremented only after verification, and each of the three decorators is in the chain exactly
+once (a chain without `NewSigVerificationDecorator`, or with the increment first, is not the modelled one). -/
+theorem ante_auth_wiring :
+    Sekai.App.inOrder Sekai.Gen.App.anteChain
+      ["ante.NewSetUpContextDecorator", "NewSetPubKeyDecorator", "NewSigVerificationDecorator",
+       "ante.NewIncrementSequenceDecorator"] = true ∧
+    Sekai.App.once Sekai.Gen.App.anteChain "ante.NewValidateSigCountDecorator" = true ∧
+    Sekai.App.once Sekai.Gen.App.anteChain "ante.NewValidateBasicDecorator" = true := by decide +kernel
 
 end Sekai.Props.C02
